@@ -327,7 +327,8 @@ def gen_model(rng, opts=None):
             pairs.append((a, b))
     rng.shuffle(pairs)
     if kind == "pair":
-        npair = rng.randint(max(1, o["min_functions"]), max(1, min(len(pairs), 6)))
+        hi = max(1, min(len(pairs), 6))
+        npair = rng.randint(min(max(1, o["min_functions"]), hi), hi)
     else:
         npair = rng.randint(0, min(len(pairs), 5))
     pair_entries = []
